@@ -16,7 +16,7 @@ import re
 
 from ref import growth as RG
 from ref import patterns as RP
-from sim import core, histsim
+from sim import allocsim, core, histsim
 
 from . import common
 
@@ -186,6 +186,7 @@ def execute(case):
     for lock in common.isolate_locks():
         lock._reset()  # pylint: disable=protected-access
     if not case.get("keep_memo"):
+        common.clear_functools_caches()
         for table in (getattr(PolyPerms, "_CACHE", None), getattr(InsertionEncodablePerms, "_CACHE", None)):
             if isinstance(table, dict):
                 table.clear()
@@ -219,10 +220,14 @@ def execute(case):
             import gc  # pylint: disable=import-outside-toplevel
 
             out.fault("class_cache_cleared")
-            seen_ids = set()
+            seen_ids = {}
             bad = None
             try:
+                from permuta.perm_sets.basis import Basis  # pylint: disable=import-outside-toplevel
+
                 orphans = op.get("mode") == "orphans"
+                prebuilt = {}
+                av_items = None
                 for phase in (0, 1):
                     order = list(range(len(case["bases"])))
                     if phase:
@@ -233,11 +238,24 @@ def execute(case):
                         base = [uni[i] for i in case["bases"][bi] if i < len(uni) and len(uni[i]) > 0]
                         if not base:
                             continue
-                        av = pm.Av([pm.Perm(p) for p in base])
+                        if phase and bi in prebuilt:
+                            # dig for a block freed by phase 0 (of another basis if possible), so
+                            # that the new class object is allocated exactly there
+                            wanted = {a for a, owner in seen_ids.items() if owner != bi} or set(seen_ids)
+                            _addr, held = allocsim.aim(pm.Av, av_items, wanted)
+                            held[-1] = None
+                            av = pm.Av(prebuilt[bi])
+                            del held
+                        else:
+                            av = pm.Av([pm.Perm(p) for p in base])
                         keep.append((av, base))
                         if phase and id(av) in seen_ids:
                             out.probe("class_object_address_reused")
-                        seen_ids.add(id(av))
+                            if seen_ids.pop(id(av)) != bi:
+                                out.probe("class_object_at_address_of_another_class")
+                        elif not phase:
+                            seen_ids[id(av)] = bi
+                            av_items = tuple.__len__(av) if isinstance(av, tuple) else None
                     if orphans and not phase:
                         # the class cache is cleared while the objects are still held; they are
                         # asked afterwards, and only then dropped (without another clear)
@@ -247,6 +265,13 @@ def execute(case):
                         exp = (RG.is_finite(base), RG.is_polynomial(base), RG.is_insertion_encodable(base))
                         if got != exp and bad is None:
                             bad = (phase, base, got, exp)
+                    if not phase:
+                        # built before the old objects are freed (basis elements of length 2-3
+                        # are of the size class of a class object and would settle in their blocks)
+                        for bi in order:
+                            base = [uni[i] for i in case["bases"][bi] if i < len(uni) and len(uni[i]) > 0]
+                            if base:
+                                prebuilt[bi] = Basis(*[pm.Perm(p) for p in base])
                     del keep, av
                     if not (orphans and not phase):
                         pm.Av.clear_cache()
